@@ -27,6 +27,7 @@ func sc(rule, re string, props ...string) scopeEntry {
 var scopeTable = []scopeEntry{
 	// rejection funnel
 	sc("CMD-1", `:propagates`, "C05", "C07"),
+	sc("CMD-1", `:rejected=>returned@`, "C07"),
 	sc("CMD-1", `:reject\[Errorf`, "C01", "C04", "C07"),
 	sc("CMD-1", `:reject\[`, "C01", "C04", "C07", "C13", "C19"),
 	// compile path
